@@ -73,6 +73,24 @@ pub fn nesting_families(rng: &mut Rng, deep: usize) -> Vec<(String, Vec<u8>)> {
             v.push((format!("{}x{}", name, depth), b));
         }
     }
+    // every depth 0..=48 of open indefinite containers around a definite container that holds an
+    // indefinite one (the shape at which skip changes its bookkeeping), closed properly
+    for depth in 0..=48usize {
+        for (open, key) in [(0x9fu8, false), (0xbf, true)] {
+            let mut b = Vec::new();
+            for _ in 0..depth {
+                b.push(open);
+                if key {
+                    b.push(0x00)
+                }
+            }
+            b.extend_from_slice(&[0x83, 0x9f, 0x01, 0xff, 0x02, 0xbf, 0x03, 0x9f, 0xff, 0xff]);
+            for _ in 0..depth {
+                b.push(0xff)
+            }
+            v.push((format!("depth-{} {:02x} around definite-of-indefinite", depth, open), b));
+        }
+    }
     // alternating definite / indefinite nesting
     for depth in [2usize, 3, 4, 9, 64, deep.min(2000)] {
         for start_indef in [false, true] {
